@@ -36,7 +36,7 @@ Inductive vcase :=
            (hdr : ver) (err : option Z) (classes : list gclass)
 | CQuery (v : ver) (ops : list Z)
 | CDiscover (client answer : list ver)
-| CTemplate (v : ver) (names : list string) (refused : option string)
+| CTemplate (v : ver) (items : list tmpl_item) (observed : tmpl_result)
 | CLocate (v : ver) (names : list string) (refused : option string)
 | CReported (v : ver) (held requested observed : list string)
 | CFieldWrite (cls : string) (v : ver) (set_tags emitted : list string) (raised : bool)
@@ -74,7 +74,12 @@ Definition check_vcase (c : vcase) : bool :=
       end
   | CQuery v ops => list_eqb Z.eqb (query_ops v) ops
   | CDiscover client answer => list_eqb ver_eqb (discover client) answer
-  | CTemplate v names refused => opt_eqb String.eqb (template_gate v names) refused
+  | CTemplate v items observed =>
+      match template_walk v [] items, observed with
+      | TOk, TOk | TOther, TOther => true
+      | TUnsupported a, TUnsupported b => String.eqb a b
+      | _, _ => false
+      end
   | CLocate v names refused => opt_eqb String.eqb (locate_filter_gate v names) refused
   | CReported v held requested observed =>
       list_eqb String.eqb
@@ -86,4 +91,42 @@ Definition check_vcase (c : vcase) : bool :=
   | CFieldRead cls v tag accepted => Bool.eqb (negb (class_refused cls v) && tag_allowed cls v tag) accepted
   | CStruct meth cls v refused => Bool.eqb (class_refused_in meth cls v) refused
   | CAttrTag tag v is_attr => Bool.eqb (attr_tag_allowed tag v) is_attr
+  end.
+
+(* the same case with every observed component replaced by the model's answer: printed next to the observed case when a
+   correspondence disagrees, so that a replay shows both sides *)
+Definition model_view (c : vcase) : vcase :=
+  match c with
+  | CFloat a b _ _ => CFloat a b (float_ltb a b) (float_eqb a b)
+  | CVerCmp a b _ _ _ _ _ => CVerCmp a b (ver_eqb a b) (ver_ltb a b) (ver_gtb a b) (ver_leb a b) (ver_geb a b)
+  | CAccept v _ => CAccept v (version_accepted v)
+  | CRequest v hr stop items _ _ _ =>
+      let req := Build_request v hr stop (k_items items) in
+      let '(_, r, _) := process_request unit bool k_handler req tt in
+      match r with
+      | RespRaised reason => CRequest v hr stop items (Some reason) None []
+      | RespMessage hv os => CRequest v hr stop items None (Some hv)
+                               (map (fun p => class_of (gate v (fst p))) (firstn (List.length os) items))
+      end
+  | CSession v known hr stop items _ _ _ =>
+      let req := Build_request v hr stop (k_items items) in
+      let '(_, r, _) := session_handle unit bool k_handler (fun _ => known) req tt in
+      match r with
+      | WireError hv reason => CSession v known hr stop items hv (Some reason) []
+      | WireMessage hv os => CSession v known hr stop items hv None
+                               (map (fun p => class_of (gate v (fst p))) (firstn (List.length os) items))
+      end
+  | CQuery v _ => CQuery v (query_ops v)
+  | CDiscover client _ => CDiscover client (discover client)
+  | CTemplate v items _ => CTemplate v items (template_walk v [] items)
+  | CLocate v names _ => CLocate v names (locate_filter_gate v names)
+  | CReported v held requested _ =>
+      CReported v held requested
+        (reported v (fun n => str_mem n held) (match requested with [] => all_attr_names | _ => requested end))
+  | CFieldWrite cls v set_tags _ _ =>
+      if class_refused cls v then CFieldWrite cls v set_tags [] true
+      else CFieldWrite cls v set_tags (filter (fun t => tag_allowed cls v t) set_tags) false
+  | CFieldRead cls v tag _ => CFieldRead cls v tag (negb (class_refused cls v) && tag_allowed cls v tag)
+  | CStruct meth cls v _ => CStruct meth cls v (class_refused_in meth cls v)
+  | CAttrTag tag v _ => CAttrTag tag v (attr_tag_allowed tag v)
   end.
